@@ -8,6 +8,8 @@ Allowed == [
   cl_te |-> {"reject", "te"}, te_cl_small |-> {"reject", "te"},
   dup_cl_diff |-> {"reject"}, dup_cl_same |-> {"reject", "cl"},
   cl_list_same |-> {"reject", "cl"}, cl_list_diff |-> {"reject"},
+  \* a conflicting member hidden behind a harmless duplicate: "L, L, N" in one field / "L" and "L, N" in two fields / "L, L" and "N"
+  cl_list_dup_diff |-> {"reject"}, cl_two_dup_diff |-> {"reject"}, cl_listdup_then_field |-> {"reject"},
   cl_plus |-> {"reject"}, cl_minus |-> {"reject"}, cl_trailing |-> {"reject"}, cl_hex |-> {"reject"}, cl_inner_space |-> {"reject"},
   cl_empty |-> {"reject"}, cl_exp |-> {"reject"}, cl_huge |-> {"reject"}, cl_ows |-> {"reject", "cl"},
   te_unknown |-> {"reject"}, te_chunked_identity |-> {"reject"}, te_identity |-> {"reject"}, te_dup |-> {"reject"},
